@@ -255,3 +255,203 @@ def history_by_name(name):
         seq = name.split(':', 1)[1].split(',')
         return {'name': name, 'layer': 'engine', 'atoms': seq}
     raise KeyError(name)
+
+
+# ---------------------------------------------------------------------------------------------- session / client transport
+_CERT_KEY = None
+_CERTS = {}
+
+
+def make_cert(cns, eku):
+    """DER certificate with the given common names; eku in {'absent', 'server', 'client'}."""
+    global _CERT_KEY
+    import datetime
+    from cryptography import x509
+    from cryptography.hazmat.backends import default_backend
+    from cryptography.hazmat.primitives import hashes, serialization
+    from cryptography.hazmat.primitives.asymmetric import ec
+    k = (tuple(cns), eku)
+    if k in _CERTS:
+        return _CERTS[k]
+    if _CERT_KEY is None:
+        _CERT_KEY = ec.generate_private_key(ec.SECP256R1(), default_backend())
+    attrs = [x509.NameAttribute(x509.oid.NameOID.COMMON_NAME, cn) for cn in cns]
+    attrs.append(x509.NameAttribute(x509.oid.NameOID.ORGANIZATION_NAME, 'verif'))
+    name = x509.Name(attrs)
+    t = datetime.datetime(2020, 1, 1)
+    b = (x509.CertificateBuilder().serial_number(1).issuer_name(name).subject_name(name)
+         .not_valid_before(t).not_valid_after(t + datetime.timedelta(days=36500)).public_key(_CERT_KEY.public_key()))
+    O = x509.oid.ExtendedKeyUsageOID
+    usages = {'absent': None, 'server': [O.SERVER_AUTH], 'client': [O.CLIENT_AUTH]}[eku]
+    if usages is not None:
+        b = b.add_extension(x509.ExtendedKeyUsage(usages), True)
+    der = b.sign(_CERT_KEY, hashes.SHA256(), default_backend()).public_bytes(serialization.Encoding.DER)
+    _CERTS[k] = der
+    return der
+
+
+class FakeConn:
+    def __init__(self, data, cert, chunk=4096, handshake_error=None):
+        self.data = bytes(data)
+        self.cert = cert
+        self.sent = b''
+        self.chunk = chunk
+        self.handshake_error = handshake_error
+
+    def do_handshake(self):
+        if self.handshake_error is not None:
+            raise self.handshake_error
+
+    def recv(self, n):
+        n = min(n, self.chunk)
+        out, self.data = self.data[:n], self.data[n:]
+        return out
+
+    def sendall(self, data):
+        self.sent += bytes(data)
+
+    def getpeercert(self, binary_form=False):
+        return self.cert
+
+    def cipher(self):
+        return ('ECDHE-RSA-AES256-GCM-SHA384', 'TLSv1.2', 256)
+
+    def shared_ciphers(self):
+        return [self.cipher()]
+
+    def shutdown(self, how):
+        pass
+
+    def close(self):
+        pass
+
+
+def split_frames(data):
+    out = []
+    while len(data) >= 8:
+        n = struct.unpack('!I', data[4:8])[0]
+        out.append(data[:8 + n])
+        data = data[8 + n:]
+    return out
+
+
+def response_messages(frame):
+    """[(status, reason, message)] of one encoded response (tries the 1.x and the 2.0 readers)."""
+    for ver in (enums.KMIPVersion.KMIP_1_4, enums.KMIPVersion.KMIP_2_0):
+        try:
+            m = messages.ResponseMessage()
+            m.read(kutils.BytearrayStream(frame), kmip_version=ver)
+            return [(bi.result_status.value.name, bi.result_reason.value.name if bi.result_reason else None,
+                     bi.result_message.value if bi.result_message else None) for bi in m.batch_items]
+        except Exception:
+            continue
+    return None
+
+
+def encode_request(w, items, version=None, auth=None, **kw):
+    version = version or w.version
+    req = w.eng.build(items, version=version, auth=auth, **kw)
+    s = kutils.BytearrayStream()
+    kv = contents.protocol_version_to_kmip_version(contents.ProtocolVersion(*version)) or enums.KMIPVersion.KMIP_1_2
+    req.write(s, kmip_version=kv)
+    return bytes(s.buffer)
+
+
+def password_auth(username, password):
+    return contents.Authentication(credentials=[cobjects.Credential(
+        credential_type=enums.CredentialType.USERNAME_AND_PASSWORD,
+        credential_value=cobjects.UsernamePasswordCredential(username=username, password=password))])
+
+
+def run_session(w, stream, cert='default', auth_settings=None, tls_auth=True, handshake_error=None, label=None, whole_run=True):
+    """One connection through the real KmipSession.run(); result messages of every response go to w.messages."""
+    from kmip.services.server import session as session_mod
+    if cert == 'default':
+        cert = make_cert(['alice'], 'client')
+    conn = FakeConn(stream, cert, chunk=w.rng.choice([7, 64, 4096]), handshake_error=handshake_error)
+    s = session_mod.KmipSession(w.eng.engine, conn, ('192.0.2.7', 5696), name='c20',
+                                enable_tls_client_auth=tls_auth, auth_settings=auth_settings)
+    s._logger.setLevel(logging.NOTSET)
+    escaped = None
+    try:
+        s.run()
+    except Exception as e:          # run() itself lets nothing but OSError out; recorded, never expected
+        escaped = repr(e)
+    step = len(w.trace)
+    ent = {'step': step, 'session': label, 'request_bytes': len(stream), 'responses': [], 'escaped': escaped}
+    for fr in split_frames(conn.sent):
+        ms = response_messages(fr)
+        if ms is None:
+            ent['responses'].append('undecodable')
+            continue
+        for st, reason, msg in ms:
+            ent['responses'].append('%s/%s' % (st, reason))
+            w.opcount['session.%s' % (reason or 'SUCCESS')] += 1
+            if msg is not None:
+                w.messages.append((step, 'message', msg))
+    w.trace.append(ent)
+    return conn.sent
+
+
+class Loopback:
+    """Socket of the pie client: every complete request frame is handed to a fresh KmipSession message loop."""
+
+    def __init__(self, w, cert=None):
+        self.w = w
+        self.inbuf = b''
+        self.outbuf = b''
+        self.cert = cert or make_cert(['alice'], 'client')
+
+    def sendall(self, data):
+        from kmip.services.server import session as session_mod
+        self.inbuf += bytes(data)
+        while len(self.inbuf) >= 8:
+            n = struct.unpack('!I', self.inbuf[4:8])[0]
+            if len(self.inbuf) < 8 + n:
+                break
+            frame, self.inbuf = self.inbuf[:8 + n], self.inbuf[8 + n:]
+            conn = FakeConn(frame, self.cert)
+            s = session_mod.KmipSession(self.w.eng.engine, conn, ('192.0.2.9', 5696), name='c20-client')
+            s._logger.setLevel(logging.NOTSET)
+            s._handle_message_loop()
+            self.outbuf += conn.sent
+
+    def recv(self, n):
+        out, self.outbuf = self.outbuf[:n], self.outbuf[n:]
+        return out
+
+    def close(self):
+        pass
+
+
+def make_client(w, version=None, username=None, password=None):
+    from kmip.pie import client as pie_client
+    from kmip.services.kmip_protocol import KMIPProtocol
+    cl = pie_client.ProxyKmipClient(kmip_version=version, username=username, password=password)
+    cl._is_open = True
+    cl.proxy.protocol = KMIPProtocol(Loopback(w))
+    return cl
+
+
+def client_call(w, label, fn, *a, **kw):
+    """Call a pie client method; the text of whatever it raises is client-visible output."""
+    from kmip.pie import exceptions as pexc
+    step = len(w.trace)
+    ent = {'step': step, 'client': label}
+    try:
+        r = fn(*a, **kw)
+        ent['result'] = 'ok'
+        w.opcount['client.%s.ok' % label.split()[0]] += 1
+    except pexc.KmipOperationFailure as e:
+        r = None
+        ent['result'] = 'KmipOperationFailure/%s' % getattr(e.reason, 'name', e.reason)
+        w.opcount['client.%s.%s' % (label.split()[0], getattr(e.reason, 'name', e.reason))] += 1
+        w.messages.append((step, 'client-failure', str(e.message)))
+        w.messages.append((step, 'client-error', str(e)))
+    except Exception as e:
+        r = None
+        ent['result'] = type(e).__name__
+        w.opcount['client.%s.%s' % (label.split()[0], type(e).__name__)] += 1
+        w.messages.append((step, 'client-error', '%s: %s' % (type(e).__name__, e)))
+    w.trace.append(ent)
+    return r
